@@ -477,15 +477,27 @@ def _check_identity(chk, pid: str) -> None:
     rule = "identity-equality"
     chk.robust.add(rule)
     try:
+        import json
+        import os
+
         found, n = identity_findings(repo)
-        rel = relevant(repo, pid) or set()
-        used = _classes_used(repo, Classes(repo), rel)
+        spec_path = os.path.join(os.path.dirname(os.path.dirname(os.path.abspath(__file__))), "spec", "identity.json")
+        users = json.load(open(spec_path)).get("properties", {})
     except Exception as e:  # never a verdict
         chk.error(rule, "-", f"identity analysis failed: {type(e).__name__}: {e}")
         return
     k = 0
     for m, c, site, msg, key in found:
-        if (m, c.name) in used:
+        # a class the table does not know (new record class): attributed through the classes the property's reachable code names
+        listed = users.get(f"{m}.{c.name}")
+        if listed is None:
+            try:
+                hit = (m, c.name) in _classes_used(repo, Classes(repo), relevant(repo, pid) or set())
+            except Exception:
+                hit = False
+        else:
+            hit = pid in listed
+        if hit:
             k += 1
             mod = repo.modules[m]
             chk.violation(rule, f"{mod.relpath}:{getattr(site, 'lineno', c.lineno)} {c.name}", msg, f"{m}:{c.name}:{key}")
